@@ -22,7 +22,8 @@ def count_nodes():
 @pipeline
 def c20(ctx: Ctx):
     ctx.assumptions = [
-        "TLC; spec/Robust.tla spans the space (29 mutation operators x every node of a 207-node base document using every object kind, x entry point x external switch x JSON/YAML); the oracle is the outcome alphabet",
+        "TLC; spec/Robust.tla spans the space (61 tree operators x every node of a 207-node base document using every object kind, x entry point x external switch x JSON/YAML; 101 lexical operators -- YAML / JSON / encoding level -- on a seeded slice of the nodes); the oracle is the outcome alphabet",
+        "spec/RefGraph.tla spans the adversarial reference graphs: every lasso of the object-kind graph up to the bound (alias cycles of every kind, recursion through every site, header -> media type -> encoding -> header, callback -> path item -> operation -> callback; closing by component / deep pointer / alias hop / across a second file), each pushed through every validator / serialiser / resolver / internaliser entry point of a loaded document",
         "the byte-string quantifier is sampled, not exhausted: structure-level mutations, truncation at node boundaries, seeded byte noise",
         "harness/c20.go applies the mutations and runs load -> validate -> marshal JSON/YAML -> internalize -> validate under the crash-safe runner (panic recovered per stage, 5 s watchdog, process death = crash)",
     ]
@@ -32,12 +33,16 @@ def c20(ctx: Ctx):
         write_ndjson(cases, [ctx.replay["violation"]["c"]])
     else:
         maxmut, stride = (1, 1) if ctx.tier == "quick" else (2, 32)
+        lexstride = 5 if ctx.tier == "quick" else 1
         sparse_ops = ('{"delete", "to_null", "to_empty_obj"}' if ctx.tier == "quick" else
                       '{"to_null", "to_bool", "to_num", "to_str", "to_arr", "to_obj", "to_empty_obj", "to_empty_str", "delete", "dup_key_other_type", "nest_deep", "huge_number", "ref_dangling", "ref_hash_only", "ref_empty"}')
-        cfg = ("SPECIFICATION Spec\nCONSTANTS NNodes = %d\n MaxMut = %d\n PairStride = %d\n Seed = %d\n SparseNodes = 30\n SparseOps = %s\nINVARIANT Emit\nCHECK_DEADLOCK FALSE\n"
-               % (nn, maxmut, stride, ctx.seed, sparse_ops))
+        cfg = ("SPECIFICATION Spec\nCONSTANTS NNodes = %d\n MaxMut = %d\n PairStride = %d\n LexStride = %d\n Seed = %d\n SparseNodes = 30\n SparseOps = %s\nINVARIANT Emit\nCHECK_DEADLOCK FALSE\n"
+               % (nn, maxmut, stride, lexstride, ctx.seed, sparse_ops))
         open(ctx.spec("Gen_C20_run.cfg"), "w").write(cfg)
-        ctx.tlc("Gen_C20", "Gen_C20_run.cfg", label="F generate mutation sequences (BFS)", timeout=2400)
+        # development aid: VERIF_C20_ONLY=graph|mut restricts the run to one half of the universe (a full run sets nothing)
+        only = os.environ.get("VERIF_C20_ONLY", "")
+        if only in ("", "mut"):
+            ctx.tlc("Gen_C20", "Gen_C20_run.cfg", label="F generate mutation sequences (BFS)", timeout=2400)
         n = ctx.unquote(ctx.spec("cases.ndjson"), cases)
         if ctx.tier == "thorough":
             # the pair level is large: keep every single mutation and a seeded 12% of the pairs
@@ -46,22 +51,45 @@ def c20(ctx: Ctx):
             write_ndjson(cases, keep)
             n = len(keep)
         log("[gen] %d cases over %d nodes" % (n, nn))
-        ctx.exhaustive = ctx.tier == "quick"
-        ctx.extra["generator_constants"] = dict(NNodes=nn, MaxMut=maxmut, PairStride=stride)
+        # reference graphs (spec/RefGraph.tla): every lasso of the kind graph up to the bound
+        gmax, gschema, gofat, gtier = (3, 1, 1, "ofat") if ctx.tier == "quick" else (4, 1, 1, "ofat")
+        gcfg = ("SPECIFICATION GSpec\nCONSTANTS GMaxSteps = %d\n GSites = {\"properties\", \"items\", \"additionalProperties\", \"allOf\", \"anyOf\", \"oneOf\", \"not\"}\n"
+                " GSplits = {0, 1, 2, 3, 4, 5}\n GAliasHop = {TRUE, FALSE}\n GMaxSchemaSteps = %d\n GTier = \"%s\"\n GOfatSteps = %d\nINVARIANT GEmit\nCHECK_DEADLOCK FALSE\n"
+                % (gmax, gschema, gtier, gofat))
+        open(ctx.spec("Gen_C20G_run.cfg"), "w").write(gcfg)
+        if os.path.exists(ctx.spec("cases.ndjson")):
+            os.remove(ctx.spec("cases.ndjson"))
+        if only in ("", "graph"):
+            ctx.tlc("Gen_C20G", "Gen_C20G_run.cfg", label="F generate reference graphs (BFS)", timeout=2400)
+        gcases = os.path.join(ctx.scratch, "gcases.ndjson")
+        ng = ctx.unquote(ctx.spec("cases.ndjson"), gcases)
+        with open(cases, "a") as f:
+            for l in open(gcases):
+                f.write(l)
+        log("[gen] %d reference-graph cases (<= %d steps, <= %d chained schema sites)" % (ng, gmax, gschema))
+        n += ng
+        ctx.extra["graph_constants"] = dict(GMaxSteps=gmax, GMaxSchemaSteps=gschema, GTier=gtier, GOfatSteps=gofat, cases=ng)
+        ctx.exhaustive = ctx.tier == "quick" and only == ""
+        ctx.extra["generator_constants"] = dict(NNodes=nn, MaxMut=maxmut, PairStride=stride, LexStride=lexstride)
     ctx.build_driver()
     logp = os.path.join(ctx.scratch, "log.ndjson")
     ctx.drive(cases, logp, timeout=5400, shards=14)
     rng = random.Random(ctx.seed)
     outcomes = {}
+    goutcomes = {}
     for l in open(logp):
         o = json.loads(l)
         ctx.evaluations += 1
         ctx.nontrivial.add(casehash(o["c"]))
         k = o["obs"]["load"]
         outcomes[k] = outcomes.get(k, 0) + 1
+        if o["c"]["base"]["kind"] == "graph":
+            goutcomes[k] = goutcomes.get(k, 0) + 1
         if rng.random() < 6.0 / 20000:
             ctx.samples.append(dict(c=o["c"], obs=o["obs"]))
     ctx.extra["load_outcomes"] = outcomes
-    ctx.rule = ("every mutation operator at every node of the base document (quick: single mutations; thorough: + pairs on a seeded node slice, 12% sampled) "
+    ctx.extra["graph_load_outcomes"] = goutcomes
+    ctx.rule = ("every closed walk (lasso) of the object-kind graph of <= 3 (quick) / 4 (thorough) steps, the default run configuration for all and one-factor-at-a-time variations (split over two files at every position, alias hop, unused, entry point, switch, YAML) for the short ones; "
+                "every mutation operator at every node of the base document (quick: single mutations; thorough: + pairs on a seeded node slice, 12% sampled) "
                 "x entry point (all three for JSON with external refs allowed; data entry also in YAML and with the switch off); every case is distinct")
     ctx.validate("Trace_C20", "Trace_C20.cfg", logp, chunk_lines=4000)
